@@ -24,6 +24,7 @@ pub mod sorts;
 pub mod views;
 pub mod elem;
 pub mod exam;
+pub mod hugezst;
 
 use crate::engine::Prop;
 
